@@ -26,6 +26,9 @@ class Unit:
             fn = Fn(self, fd)
             self.fns[fn.fid] = fn
         self.rec_by_type = RecIndex(self)
+        self.renames = []
+        if not os.environ.get("FSVERIF_NO_RENAME"):
+            apply_renames(self)
 
     def loc(self, l):
         if not l:
@@ -36,6 +39,121 @@ class Unit:
         if t is None or t < 0:
             return "?"
         return self.types[t]
+
+
+_SCHEMA = None
+
+
+def _schema():
+    global _SCHEMA
+    if _SCHEMA is None:
+        p = os.path.join(os.path.dirname(os.path.dirname(os.path.abspath(__file__))), "anchor_schema.json")
+        try:
+            with open(p) as f:
+                _SCHEMA = json.load(f).get("units", {})
+        except (OSError, ValueError):
+            _SCHEMA = {}
+    return _SCHEMA
+
+
+def _is_lib(name):
+    return (name or "").startswith("fastscapelib")
+
+
+def schema_of(unit):
+    """names the rule modules may anchor on: fields per record type, method signatures per class"""
+    recs = {}
+    for r in unit.records:
+        if _is_lib(r.get("bn")):
+            recs[unit.types[r["t"]]] = [[f["n"], unit.types[f["t"]]] for f in r["fields"]]
+    methods = {}
+    for fn in unit.fns.values():
+        if fn.is_lambda or fn.is_ctor or not _is_lib(fn.cls):
+            continue
+        sig = [[unit.type(p["t"]) for p in fn.params], unit.type(fn.d.get("rt")), bool(fn.is_const)]
+        methods.setdefault(fn.clstype() if fn.d.get("clst") is not None else fn.cls, {}).setdefault(fn.name, []).append(sig)
+    for c in methods.values():
+        for k in c:
+            c[k] = sorted(c[k], key=repr)
+    return {"records": recs, "methods": methods}
+
+
+def apply_renames(unit):
+    """map renamed private members / methods back to the names recorded in anchor_schema.json when the
+    match is unambiguous (same record, same type or signature multiset, exactly one candidate)"""
+    ref = _schema().get(unit.name)
+    if not ref:
+        return
+    cur = schema_of(unit)
+    fmap = {}      # (plain class name, new field name) -> old
+    for ts, fields in cur["records"].items():
+        old_fields = ref["records"].get(ts)
+        if old_fields is None:
+            continue
+        old_names = {n for n, _ in old_fields}
+        new_names = {n for n, _ in fields}
+        missing = [(n, t) for n, t in old_fields if n not in new_names]
+        added = [(n, t) for n, t in fields if n not in old_names]
+        rec = unit.rec_by_type.by_str.get(ts)
+        for (on, ot) in missing:
+            cands = [n for n, t in added if t == ot]
+            rivals = [n for n, t in missing if t == ot]
+            if len(cands) == 1 and len(rivals) == 1 and rec is not None:
+                fmap[(rec["bn"], cands[0])] = on
+                for f in rec["fields"]:
+                    if f["n"] == cands[0]:
+                        f["n"] = on
+                unit.renames.append("%s::%s (was %s)" % (rec["bn"], cands[0], on))
+    mmap = {}      # (class type string, new method name) -> old
+    for cls, meths in cur["methods"].items():
+        old_m = ref["methods"].get(cls)
+        if old_m is None:
+            continue
+        missing = [n for n in old_m if n not in meths]
+        added = [n for n in meths if n not in old_m]
+        for on in missing:
+            cands = [n for n in added if meths[n] == old_m[on]]
+            rivals = [n for n in missing if old_m[n] == old_m[on]]
+            if len(cands) == 1 and len(rivals) == 1:
+                mmap[(cls, cands[0])] = on
+    fid_new_bn = {}
+    for fn in unit.fns.values():
+        if fn.is_lambda or fn.is_ctor:
+            continue
+        cls = fn.clstype() if fn.d.get("clst") is not None else fn.cls
+        on = mmap.get((cls, fn.name))
+        if on is not None:
+            new = fn.name
+            fn.bn = fn.bn[: len(fn.bn) - len(new)] + on if fn.bn.endswith("::" + new) else fn.bn
+            fn.qn = fn.qn.replace("::" + new, "::" + on) if isinstance(fn.qn, str) else fn.qn
+            fn.name = on
+            fn.d["n"], fn.d["bn"] = on, fn.bn
+            fid_new_bn[fn.fid] = fn.bn
+            unit.renames.append("%s::%s (was %s)" % (fn.cls, new, on))
+    if not fmap and not fid_new_bn:
+        return
+    unit.renames = sorted(set(unit.renames))
+    for fn in unit.fns.values():
+        for ini in fn.d.get("inits", []) or []:
+            if fn.cls and (fn.cls, ini.get("field")) in fmap:
+                ini["field"] = fmap[(fn.cls, ini["field"])]
+        stack = [fn.body] + [i.get("init") for i in (fn.d.get("inits") or [])]
+        while stack:
+            n = stack.pop()
+            if isinstance(n, dict):
+                if n.get("k") == "member" and n.get("mk") == "field":
+                    on = fmap.get((n.get("cls"), n.get("n")))
+                    if on is not None:
+                        n["n"] = on
+                if n.get("k") == "call" and n.get("fid") in fid_new_bn:
+                    n["bn"] = fid_new_bn[n["fid"]]
+                stack.extend(n.values())
+            elif isinstance(n, list):
+                stack.extend(n)
+        # lambdas are named after their enclosing function
+        if fn.is_lambda:
+            for fid, bn in fid_new_bn.items():
+                pass
 
 
 class RecIndex:
@@ -193,6 +311,36 @@ def strip(e):
     """peel casts"""
     while isinstance(e, dict) and e.get("k") == "cast":
         e = e["e"]
+    return e
+
+
+def local_init(fn, d):
+    """initialiser of the local variable with declaration id d, if the variable is never written
+    afterwards (a named constant / alias); else None"""
+    init = None
+    for n in walk(fn.body):
+        if "d" in n and "k" not in n and n.get("d") == d:
+            init = n.get("init")
+        if n.get("k") == "binop" and n.get("op") in ("=", "+=", "-=", "*=", "/=", "|=", "&=", "^=", "%="):
+            l = strip(n["lhs"])
+            if l.get("k") == "ref" and l.get("d") == d:
+                return None
+        if n.get("k") == "unop" and n.get("op") in ("++", "--", "pre++", "pre--", "post++", "post--"):
+            o = strip(n.get("e") or {})
+            if o.get("k") == "ref" and o.get("d") == d:
+                return None
+    return init
+
+
+def resolve_alias(fn, e, depth=0):
+    """follow references to never-reassigned locals to their initialiser (bounded)"""
+    e = strip(e)
+    while depth < 4 and e.get("k") == "ref" and e.get("rk") in ("local", "slocal") and e.get("d") is not None:
+        ini = local_init(fn, e["d"])
+        if ini is None:
+            break
+        e = strip(ini)
+        depth += 1
     return e
 
 
